@@ -20,8 +20,16 @@ unch = ", ".join(v for v in vs if v != "now")
 t = re.sub(r"LocalLabels == \{.*?\}", lambda _: "LocalLabels == {%s}" % ", ".join('"%s"' % l for l in local), t, count=1, flags=re.S)
 t = re.sub(r"(Tick ==.*?UNCHANGED <<).*?(>>)", lambda mm: mm.group(1) + unch + mm.group(2), t, count=1, flags=re.S)
 if "MuLabels ==" in t:
-    mul = [l for l in labels if re.match(r"(ls|us|lk|tl|ul|ta|mw_[14567]|ww_[1234]|db)_", l) and not l.endswith("_l") and not l.endswith("_d")]
-    t = re.sub(r"MuLabels == \{.*?\}", lambda _: "MuLabels == {%s}" % ", ".join('"%s"' % l for l in mul), t, count=1, flags=re.S)
+    # labels whose step reads or writes the mutex itself (word or waiter queue)
+    parts = re.split(r"^\s+([a-z]+[0-9]*_?[a-z0-9_]*):", alg, flags=re.M)
+    mul = []
+    for i in range(1, len(parts) - 1, 2):
+        lab, body = parts[i], parts[i + 1]
+        body = re.sub(r"\\\*.*", "", body)
+        body = re.split(r"\n\s*procedure |\n\s*process ", body)[0]
+        if re.search(r"\b(word|queue)\b", body):
+            mul.append(lab)
+    t = re.sub(r"MuLabels == \{.*?\}", lambda _: "MuLabels == {%s}" % ", ".join('"%s"' % l for l in sorted(set(mul))), t, count=1, flags=re.S)
 open(path, "w").write(t)
 r = subprocess.run(["tla-sany", path], capture_output=True, text=True)
 errs = [l for l in r.stdout.splitlines() if "rror" in l or "Unknown" in l]
